@@ -46,7 +46,8 @@ Definition esc_opt (c : ascii) : bool := esc_path c || (bn c =? 44).
 Record mount := MkMount {
   m_source : bytes; m_mp : bytes; m_source2 : bytes; m_workdir : bytes;
   m_fstype : bytes; m_options : bytes; m_shadow : bool; m_dev : bytes; m_root : bytes }.
-Record device := MkDev { d_dev : bytes; d_name : bytes; d_roots : list bytes }.
+Record device := MkDev { d_dev : bytes; d_name : bytes; d_roots : list bytes;
+                         d_subroots : list (bytes * bytes) }.     (* (root, mountpoint) of mounts of subtrees *)
 
 Definition mount_beq (a b : mount) : bool :=
   beq (m_source a) (m_source b) && beq (m_mp a) (m_mp b) && beq (m_source2 a) (m_source2 b)
@@ -54,7 +55,8 @@ Definition mount_beq (a b : mount) : bool :=
   && beq (m_options a) (m_options b) && Bool.eqb (m_shadow a) (m_shadow b)
   && beq (m_dev a) (m_dev b) && beq (m_root a) (m_root b).
 Definition device_beq (a b : device) : bool :=
-  beq (d_dev a) (d_dev b) && beq (d_name a) (d_name b) && list_beq beq (d_roots a) (d_roots b).
+  beq (d_dev a) (d_dev b) && beq (d_name a) (d_name b) && list_beq beq (d_roots a) (d_roots b)
+  && list_beq (fun x y => beq (fst x) (fst y) && beq (snd x) (snd y)) (d_subroots a) (d_subroots b).
 
 (* ---- one line ---- *)
 Definition overlay : bytes := bs "overlay".
@@ -117,13 +119,15 @@ Record pstate := MkP {
 
 Definition shadow_types : list bytes := fields D_ShadowingFsTypes.
 
-Fixpoint dev_add (devs : list device) (dev name : bytes) (root_mp : option bytes) : list device :=
+Fixpoint dev_add (devs : list device) (dev name root mp : bytes) : list device :=
+  let is_root := beq root [slash] in
   match devs with
-  | [] => [MkDev dev name (match root_mp with Some mp => [mp] | None => [] end)]
+  | [] => [MkDev dev name (if is_root then [mp] else []) (if is_root then [] else [(root, mp)])]
   | d :: r =>
     if beq (d_dev d) dev
-    then MkDev (d_dev d) (d_name d) (match root_mp with Some mp => d_roots d ++ [mp] | None => d_roots d end) :: r
-    else d :: dev_add r dev name root_mp
+    then MkDev (d_dev d) (d_name d) (if is_root then d_roots d ++ [mp] else d_roots d)
+               (if is_root then d_subroots d else d_subroots d ++ [(root, mp)]) :: r
+    else d :: dev_add r dev name root mp
   end.
 
 Definition pstep (st : pstate) (r : rawline) : pstate :=
@@ -134,8 +138,7 @@ Definition pstep (st : pstate) (r : rawline) : pstate :=
   let m := MkMount (r_lower r) (r_mp r) (r_upper r) (r_work r) (r_fstype r) (r_opts r) inshadow
                    (r_dev r) (r_root r) in
   MkP (m :: p_mounts st)
-      (dev_add (p_devs st) (r_dev r) (r_fsname r)
-               (if beq (r_root r) [slash] then Some (r_mp r) else None))
+      (dev_add (p_devs st) (r_dev r) (r_fsname r) (r_root r) (r_mp r))
       shadow'.
 
 Inductive probe_res := PPanic | POk (ms : list mount) (ds : list device).
@@ -165,10 +168,10 @@ Definition mountpoints (ms : list mount) : list bytes := map m_mp ms.
 Fixpoint dedup (l : list bytes) : list bytes :=
   match l with [] => [] | x :: r => if memb x r then dedup r else x :: dedup r end.
 
-(* GetMountAndSubmounts: distinct mountpoints equal to [p] or starting with p/ , sorted *)
+(* GetMountAndSubmounts: the mountpoint of every mount (stacked ones repeated) at [p] or below it, sorted *)
 Definition at_or_below (p q : bytes) : bool := beq q p || prefixb (p ++ [slash]) q.
 Definition get_mount_and_submounts (ms : list mount) (p : bytes) : list bytes :=
-  sort (dedup (filter (at_or_below p) (mountpoints ms))).
+  sort (filter (at_or_below p) (mountpoints ms)).
 
 Fixpoint find_dev (ds : list device) (dev : bytes) : option device :=
   match ds with [] => None | d :: r => if beq (d_dev d) dev then Some d else find_dev r dev end.
@@ -185,7 +188,11 @@ Definition mount_sources (ds : list device) (m : mount) : src_res :=
       let is_root := beq (m_root m) [slash] in
       let root := if is_root then [] else m_root m in
       SOk ((if is_root then [d_name d] else []) ++
-           filter (fun s => negb (beq s (m_mp m))) (map (fun mp => pathjoin2 mp root) (d_roots d)))
+           filter (fun s => negb (beq s (m_mp m))) (map (fun mp => pathjoin2 mp root) (d_roots d)) ++
+           filter (fun s => negb (beq s (m_mp m)))
+             (flat_map (fun sr => if beq (m_root m) (fst sr) || prefixb (fst sr ++ [slash]) (m_root m)
+                                  then [pathjoin2 (snd sr) (skipn (length (fst sr)) (m_root m))] else [])
+                       (d_subroots d)))
     end
   end.
 Definition source_is_expected (ds : list device) (m : mount) (test : bytes) : bool :=
